@@ -170,6 +170,7 @@ theorem generalizedAffineImageVar_equal (g : Grid) (v : Nat) (e : LinExpr) (den 
     unfold generalizedAffineImageVar
     rw [if_neg hden, if_neg (show ¬ (g.spaceDim < e.spaceDim ∨ g.spaceDim < v + 1) by omega),
       if_neg (show ¬ (EQUAL = NOT_EQUAL) by decide),
+      if_neg (show ¬ (EQUAL ≠ EQUAL ∧ modulus ≠ 0) from fun h => h.1 rfl),
       if_neg (show ¬ (g.markedEmpty = true) by simpa [Grid.markedEmpty] using hne),
       if_neg (show ¬ (EQUAL ≠ EQUAL) by simp)]
     simp only [a1, Bool.false_eq_true, if_false]
@@ -206,43 +207,62 @@ theorem generalizedAffineImageVar_relsym (g : Grid) (v : Nat) (relsym : Nat) (e 
   have hunf : generalizedAffineImageVar g v relsym e den 0 = relsymLine g v := by
     unfold generalizedAffineImageVar
     rw [if_neg hden, if_neg (show ¬ (g.spaceDim < e.spaceDim ∨ g.spaceDim < v + 1) by omega), if_neg hr1,
-      if_neg (show ¬ (g.markedEmpty = true) by simpa [Grid.markedEmpty] using hne), if_pos hr2,
-      if_neg (show ¬ ((0 : Int) ≠ 0) by simp)]
+      if_neg (show ¬ (relsym ≠ EQUAL ∧ (0 : Int) ≠ 0) from fun h => h.2 rfl),
+      if_neg (show ¬ (g.markedEmpty = true) by simpa [Grid.markedEmpty] using hne), if_pos hr2]
   rw [hunf]
   exact relsymLine_spec g v hI hv
 
-/-- the throws of `generalized_affine_image` -/
-theorem generalizedAffineImageVar_thrown (g : Grid) (v : Nat) (relsym : Nat) (e : LinExpr) (den modulus : Int) :
-    (den = 0 ∨ g.spaceDim < e.spaceDim ∨ g.spaceDim < v + 1 ∨ relsym = NOT_EQUAL →
-      (generalizedAffineImageVar g v relsym e den modulus).thrown = true ∧
+/-- the throws of `generalized_affine_image` (argument checks first, a13dde6): for every invariant receiver, marked empty
+    or not, `std::invalid_argument` exactly on a zero denominator, a dimension mismatch, `NOT_EQUAL`, or a non-zero
+    modulus with a relation symbol other than `EQUAL`; the object is then unchanged; a marked-empty receiver is unchanged -/
+theorem generalizedAffineImageVar_thrown (g : Grid) (hI : GridInv g) (v : Nat) (relsym : Nat) (e : LinExpr)
+    (den modulus : Int) :
+    ((generalizedAffineImageVar g v relsym e den modulus).thrown = true ↔
+      (den = 0 ∨ g.spaceDim < e.spaceDim ∨ g.spaceDim < v + 1 ∨ relsym = NOT_EQUAL ∨ (relsym ≠ EQUAL ∧ modulus ≠ 0))) ∧
+    ((generalizedAffineImageVar g v relsym e den modulus).thrown = true →
       (generalizedAffineImageVar g v relsym e den modulus).g = g) ∧
-    (den ≠ 0 → ¬ (g.spaceDim < e.spaceDim ∨ g.spaceDim < v + 1) → relsym ≠ NOT_EQUAL → g.st.empty = true →
-      (generalizedAffineImageVar g v relsym e den modulus).thrown = false ∧
-      (generalizedAffineImageVar g v relsym e den modulus).g = g) ∧
-    (den ≠ 0 → ¬ (g.spaceDim < e.spaceDim ∨ g.spaceDim < v + 1) → relsym ≠ NOT_EQUAL → g.st.empty = false →
-      relsym ≠ EQUAL → modulus ≠ 0 →
-      (generalizedAffineImageVar g v relsym e den modulus).thrown = true ∧
-      (generalizedAffineImageVar g v relsym e den modulus).g = g) := by
-  refine ⟨fun h => ?_, fun h1 h2 h3 h4 => ?_, fun h1 h2 h3 h4 h5 h6 => ?_⟩
-  · unfold generalizedAffineImageVar
-    by_cases hd : den = 0
-    · rw [if_pos hd]; exact ⟨rfl, rfl⟩
-    · rw [if_neg hd]
-      by_cases hdim : g.spaceDim < e.spaceDim ∨ g.spaceDim < v + 1
-      · rw [if_pos hdim]; exact ⟨rfl, rfl⟩
-      · rw [if_neg hdim]
-        have : relsym = NOT_EQUAL := by
-          rcases h with h | h | h | h
-          · exact absurd h hd
-          · exact absurd (Or.inl h) hdim
-          · exact absurd (Or.inr h) hdim
-          · exact h
-        rw [if_pos this]; exact ⟨rfl, rfl⟩
-  · unfold generalizedAffineImageVar
-    rw [if_neg h1, if_neg h2, if_neg h3, if_pos (show g.markedEmpty = true from h4)]; exact ⟨rfl, rfl⟩
-  · unfold generalizedAffineImageVar
-    rw [if_neg h1, if_neg h2, if_neg h3, if_neg (show ¬ (g.markedEmpty = true) by simpa [Grid.markedEmpty] using h4),
-      if_pos h5, if_pos h6]; exact ⟨rfl, rfl⟩
+    (g.st.empty = true → (generalizedAffineImageVar g v relsym e den modulus).g = g) := by
+  by_cases hd : den = 0
+  · have : generalizedAffineImageVar g v relsym e den modulus = { g := g, thrown := true } := by
+      unfold generalizedAffineImageVar; rw [if_pos hd]
+    rw [this]; exact ⟨⟨fun _ => Or.inl hd, fun _ => rfl⟩, fun _ => rfl, fun _ => rfl⟩
+  by_cases hdim : g.spaceDim < e.spaceDim ∨ g.spaceDim < v + 1
+  · have : generalizedAffineImageVar g v relsym e den modulus = { g := g, thrown := true } := by
+      unfold generalizedAffineImageVar; rw [if_neg hd, if_pos hdim]
+    rw [this]
+    exact ⟨⟨fun _ => by rcases hdim with h | h <;> simp [h], fun _ => rfl⟩, fun _ => rfl, fun _ => rfl⟩
+  by_cases hr1 : relsym = NOT_EQUAL
+  · have : generalizedAffineImageVar g v relsym e den modulus = { g := g, thrown := true } := by
+      unfold generalizedAffineImageVar; rw [if_neg hd, if_neg hdim, if_pos hr1]
+    rw [this]; exact ⟨⟨fun _ => by simp [hr1], fun _ => rfl⟩, fun _ => rfl, fun _ => rfl⟩
+  by_cases hr3 : relsym ≠ EQUAL ∧ modulus ≠ 0
+  · have : generalizedAffineImageVar g v relsym e den modulus = { g := g, thrown := true } := by
+      unfold generalizedAffineImageVar; rw [if_neg hd, if_neg hdim, if_neg hr1, if_pos hr3]
+    rw [this]; exact ⟨⟨fun _ => by simp [hr3], fun _ => rfl⟩, fun _ => rfl, fun _ => rfl⟩
+  have hno : ¬ (den = 0 ∨ g.spaceDim < e.spaceDim ∨ g.spaceDim < v + 1 ∨ relsym = NOT_EQUAL ∨
+      (relsym ≠ EQUAL ∧ modulus ≠ 0)) := by
+    rintro (h | h | h | h | h)
+    · exact hd h
+    · exact hdim (Or.inl h)
+    · exact hdim (Or.inr h)
+    · exact hr1 h
+    · exact hr3 h
+  by_cases hemp : g.st.empty = true
+  · have : generalizedAffineImageVar g v relsym e den modulus = { g := g } := by
+      unfold generalizedAffineImageVar
+      rw [if_neg hd, if_neg hdim, if_neg hr1, if_neg hr3, if_pos (show g.markedEmpty = true from hemp)]
+    rw [this]; exact ⟨⟨(fun h => by cases h), fun h => absurd h hno⟩, fun _ => rfl, fun _ => rfl⟩
+  have hne : g.st.empty = false := by simpa using hemp
+  have hnt : (generalizedAffineImageVar g v relsym e den modulus).thrown = false := by
+    by_cases hr2 : relsym = EQUAL
+    · subst hr2
+      exact (generalizedAffineImageVar_equal g v e den modulus hI hne hd (by omega) (by omega)).1
+    · have hm : modulus = 0 := by
+        by_contra hm; exact hr3 ⟨hr2, hm⟩
+      subst hm
+      exact (generalizedAffineImageVar_relsym g v relsym e den hI hne hd (by omega) (by omega) hr1 hr2).1
+  exact ⟨⟨(fun h => by rw [hnt] at h; cases h), fun h => absurd h hno⟩, (fun h => by rw [hnt] at h; cases h),
+    fun h => absurd h hemp⟩
 
 /-- `x ≡ 1 (mod 2)` (point 1, parameter 2) under `x' = 3x + 1 (mod 4)`: point 4, parameters 6 and 4 — i.e. `4 + 2ℤ` -/
 example :
